@@ -42,6 +42,14 @@ CLAIMED.update({
          "ESS in [1,N], scale invariant, N for uniform weights, compute_ess = ESS/N and shift invariant; trimming returns exactly the upper set {w_i >= theta} with samples and weights selected by one mask, normalised, ESS(trimmed) >= ess*ESS(all), maximal on the grid, and the loop always stops by i = 0; the volume-variation metric is non-negative, weight-scale invariant and invariant under invertible affine maps when the weighted covariance has full rank (the regularised branch is not, stated). np.percentile / np.linspace are matched bit for bit by the model; real trim_weights is compared exactly on dyadic inputs.",
          "DESIGN.md §6 C20"),
 })
+CLAIMED.update({
+ "C03": ("Lean 4 proof at ℝ (rpow identities, Bochner integral over the mixing scale, tsum re-indexing for folded kernels) over kernel expressions regenerated from source (AST translator G4) with bridging obligations + toleranced one-step correspondence on the real runners under taped randomness",
+         "Interior detailed balance for both kernels for every state pair and all (mu, Sigma, nu, sigma, beta, d): the tpCN integrand t*IG*N_s is symmetric for every s>0 hence the proposal is reversible w.r.t. the Student-t, the generated acceptance is the Metropolis-Hastings ratio; RWM with periodic coordinates (any dimension, correlated increments) and with reflective coordinates when the increment density is even in each reflective coordinate. Machine-checked NEGATIONS document the three recorded findings (truncation by redraw at hard walls, tpCN Student-t ratio at folded points, reflective + correlated covariance). The scalar kernel expressions are regenerated from mcmc.py on every run and proved equal to the canonical model; the real runners must reproduce the Float one-step model.",
+         "DESIGN.md §6 C03"),
+ "C19": ("Lean 4 proof at ℝ with Mathlib matrices (affine invariance of the Mahalanobis form, induction over the ECME loop with an uninterpreted nu-update) + toleranced replay of the real fit's iterates by an executable Float twin",
+         "For every invertible affine map the loop body and the whole loop are equivariant; with the initialisation this gives equivariance of the fit under per-coordinate scaling (either sign), translation and permutation; every iterate keeps the location a convex combination of the data (inside the bounding box) and the scale matrix symmetric positive definite for non-degenerate data; nu in (0,inf] given the bisect bracket; non-finite dof (inf or nan) is replaced by the fallback exactly then. Recovery of generating parameters is statistical and only covered by the fixed-seed witness of the repaired defect (nu was always inf). The real fit_mvstud's nu tape is replayed through the Float twin, which must reproduce every (mu, Sigma) iterate.",
+         "DESIGN.md §6 C19"),
+})
 NOT_YET = {}
 props = [json.loads(l) for l in open(os.path.join(HERE, "properties.jsonl"))]
 checks, na = [], []
